@@ -35,7 +35,9 @@ func New() *converter {
 }
 
 func (c *converter) StringToString(value string) string {
-	return value
+	// String literals end up within double quotes, escape the quote and the escape character itself.
+	// ("$" and "`" are left as they are, std/os.tsh relies on the shell expanding "$$".)
+	return strings.NewReplacer(`\`, `\\`, `"`, `\"`).Replace(value)
 }
 
 func (c *converter) Dump() (string, error) {
@@ -279,7 +281,7 @@ func (c *converter) BinaryOperation(left string, operator parser.BinaryOperator,
 	case parser.DATA_TYPE_STRING:
 		switch operator {
 		case parser.BINARY_OPERATOR_ADDITION:
-			c.VarAssignment(helper, fmt.Sprintf("\"%s%s\"", left, right), false)
+			c.VarAssignment(helper, fmt.Sprintf("%s%s", left, right), false)
 		default:
 			return notAllowedError()
 		}
@@ -469,11 +471,8 @@ func (c *converter) AppCall(calls []transpiler.AppCall, valueUsed bool) ([]strin
 		argsCopy := call.Args()
 
 		for j, arg := range argsCopy {
-			// If argument is a variable or contains whitespaces, quote it.
-			if strings.HasPrefix(arg, "$") || len(strings.Split(arg, " ")) > 1 {
-				arg = fmt.Sprintf("\"%s\"", arg)
-			}
-			argsCopy[j] = arg
+			// Always quote arguments to pass them as they are (empty, with whitespaces, with special characters).
+			argsCopy[j] = fmt.Sprintf("\"%s\"", arg)
 		}
 		space := ""
 
@@ -557,17 +556,7 @@ func (c *converter) varName(name string, global bool) string {
 }
 
 func (c *converter) varAssignmentString(name string, value string, global bool) string {
-	length := len(value)
-
-	if length > 0 {
-		if string(value[length-1]) != `"` {
-			value = fmt.Sprintf(`%s"`, value)
-		}
-		if string(value[0]) != `"` {
-			value = fmt.Sprintf(`"%s`, value)
-		}
-	}
-	return fmt.Sprintf("%s=%s", c.varName(name, global), value)
+	return fmt.Sprintf(`%s="%s"`, c.varName(name, global), value)
 }
 
 func (c *converter) varEvaluationString(name string, global bool) string {
